@@ -66,7 +66,7 @@ def get_hopt_table(lmax, cvect, wvect, rvect, ub, uf):
             opt[k][0][m] = ub
             optp[k][0][m] = ub
         for m in range(mmax + 1):
-            if (m == 0) and (k == 0):
+            if lmax < 1 or ((m == 0) and (k == 0)):
                 continue
             optp[k][1][m] = uf + 2 * ub + rvect[0]
             opt[k][1][m] = wvect[0] + optp[k][1][m]
